@@ -395,6 +395,81 @@ def large_cases(rng, tier):
     return out
 
 
+NUMERALS = ["2", "2.0", "02", "1e0", "", " 3", "3", "7", "0.5", ".5", "-1", "abc", "1", "1.0", "10", "1e1", "+2", "2 "]
+
+
+def numeric_cases(rng, tier, heuristics):
+    """compute_batch_ranking with declared NUMERIC columns (numeric_column_types of ob-csv 'float' features / ob-vw numeric
+    namespaces) whose cells are non-canonical numerals next to string columns; the prescribed value is still the heuristic
+    on the category codes of the STRING cells ('2', '2.0', '02' are three categories, '' is a category)"""
+    out = []
+    for _ in range(2 if tier == "quick" else 8):
+        n = rng.randint(40, 300)
+        fr = gen_frame(rng, tier)
+        while len(fr["cols"][0]) > 400 or len(fr["cols"]) > 5:
+            fr = gen_frame(rng, tier)
+        n = len(fr["cols"][0])
+        names, cols, kinds = list(fr["names"]), list(fr["cols"]), list(fr["kinds"])
+        li = names.index(fr["label"])
+        numeric = []
+        for j in range(rng.randint(1, 2)):
+            vals = rng.sample(NUMERALS, rng.randint(4, 9))
+            if rng.random() < 0.6:
+                # related to the label so that the scores are far from 0
+                m = {v: rng.choice(vals) for v in sorted(set(cols[li]))}
+                col = [(m[v] if rng.random() < 0.7 else rng.choice(vals)) for v in cols[li]]
+            else:
+                col = [rng.choice(vals) for _ in range(n)]
+            nm = "price%d" % j
+            pos = rng.randint(0, len(names))
+            names.insert(pos, nm)
+            cols.insert(pos, col)
+            kinds.insert(pos, "numeric-declared")
+            numeric.append(nm)
+        if rng.random() < 0.5:
+            # the label itself declared numeric, written in several spellings
+            li = names.index(fr["label"])
+            sp = {v: rng.sample(["1", "1.0", "01", "1e0"], 2) if k % 2 else rng.sample(["0", "0.0", "00", "-0"], 2)
+                  for k, v in enumerate(sorted(set(cols[li])))}
+            cols[li] = [rng.choice(sp[v]) for v in cols[li]]
+            kinds[li] = "label:numeric-declared"
+            numeric.append(fr["label"])
+        base = rng.random() < 0.5
+        for k, h in enumerate(heuristics):
+            out.append({"names": names, "cols": cols, "label": fr["label"], "heuristic": h,
+                        "target_only": base if k % 2 == 0 else not base, "entry": "cbr", "numeric": numeric,
+                        "pool": {"kind": "fake", "ncpus": rng.choice([1, 2, 8])}, "kinds": kinds})
+    return out
+
+
+# with a reference model and a non-surrogate heuristic the unchanged code only scores these correctly (see notes/C05.md:
+# max-value-coverage returns values > 1, correlation-Pearson and AMI raise, because the scored column arrives as an (n, 1) block)
+REFERENCE_OK = ["MI", "MI-numba", "MI-numba-3mr", "MI-numba-randomized", "Constant"]
+
+
+def reference_cases(rng, tier):
+    """--reference_model_JSON {"desc": {"features": [a, b, "a,b"]}} together with non-surrogate heuristics, through
+    mixed_rank_graph and compute_batch_ranking (which then also builds the model's interaction feature `a AND b`; its rows
+    are judged like any other pair of columns)"""
+    out = []
+    for _ in range(2 if tier == "quick" else 8):
+        fr = gen_frame(rng, tier)
+        while len(fr["cols"][0]) > 400 or len(fr["cols"]) < 3 or len(fr["cols"]) > 6 or \
+                len([nm for nm in fr["names"] if nm != fr["label"] and "," not in nm]) < 2:
+            fr = gen_frame(rng, tier)
+        cand = [nm for nm in fr["names"] if nm != fr["label"] and "," not in nm]
+        a, b = rng.sample(cand, 2)
+        ref = [a, b, a + "," + b]
+        base = rng.random() < 0.5
+        for k, h in enumerate(REFERENCE_OK):
+            for entry in ("mrg", "cbr"):
+                out.append({"names": fr["names"], "cols": fr["cols"], "label": fr["label"], "heuristic": h,
+                            "target_only": (base if k % 2 == 0 else not base) if entry == "mrg" else (k % 2 == 1) == base,
+                            "entry": entry, "reference_features": ref,
+                            "pool": {"kind": "fake", "ncpus": rng.choice([1, 2, 8])}, "kinds": fr["kinds"]})
+    return out
+
+
 def load_corpus(pid):
     d = os.path.join(vlib.VERIF, "corpus", pid)
     out = []
@@ -621,6 +696,11 @@ def evaluate(cases, stats=None, budget=8e6):
         fr = r.get("frame") or {"names": c["names"], "cols": c["cols"]}
         if not fr.get("names") or fr.get("cols") is None:
             fr = {"names": c["names"], "cols": c["cols"]}
+        else:
+            # the batch's own columns are judged on the STRING cells the batch was given (whatever representation the
+            # stages before mixed_rank_graph leave in the frame); only derived columns are taken from the observed frame
+            own = dict(zip(c["names"], c["cols"]))
+            fr = {"names": fr["names"], "cols": [own.get(nm, col) for nm, col in zip(fr["names"], fr["cols"])]}
         key = frame_key(fr["names"], fr["cols"])
         ent = frames.setdefault(key, {"cols": fr["cols"], "pairs": set(), "mi": [], "mi_late": []})
         idx = {nm: i for i, nm in enumerate(fr["names"])}
@@ -853,7 +933,10 @@ def shrink(case, bad):
     """smaller variants of a failing case: only the columns of the failing row (+ label), fewer rows"""
     row = bad.get("row")
     names = case["names"]
-    keep = [i for i, nm in enumerate(names) if nm == case["label"] or (row and nm in (row[0], row[1]))]
+    need = set()
+    for ftr in case.get("reference_features") or []:
+        need.update(ftr.split(","))
+    keep = [i for i, nm in enumerate(names) if nm == case["label"] or nm in need or (row and nm in (row[0], row[1]))]
     if not row or len(keep) < 1 or any(nm not in names for nm in row[:2]):
         keep = list(range(len(names)))
     n = len(case["cols"][0])
@@ -866,6 +949,8 @@ def shrink(case, bad):
             c["pool"] = {"kind": "fake", "ncpus": int(c["pool"].get("nodes", 2))}
         c["names"] = [names[i] for i in keep]
         c["cols"] = [case["cols"][i][:m] for i in keep]
+        if c.get("numeric"):
+            c["numeric"] = [nm for nm in c["numeric"] if nm in c["names"]]
         if m == n and len(keep) == len(names):
             continue
         cands.append(c)
@@ -937,6 +1022,8 @@ def _check(run, replay):
                 cases.append(c)
         cases.extend(pool_cases(run.rng, run.tier))
         cases.extend(large_cases(run.rng, run.tier))
+        cases.extend(numeric_cases(run.rng, run.tier, heur))
+        cases.extend(reference_cases(run.rng, run.tier))
         # the coded frame handed to the scorer is observed on one case per frame (in-process pools, <= 2000 rows)
         seen_frames = set()
         for c in cases:
@@ -948,7 +1035,7 @@ def _check(run, replay):
     stats = {}
     verdicts = evaluate(cases, stats, budget=3e6 if run.tier == "quick" else 2e7)
 
-    hist = {"pool": {}, "rows_bucket": {}, "ncols": {}, "heuristic": {}, "mode": {}, "entry": {}, "max_cardinality_bucket": {},
+    hist = {"family": {}, "pool": {}, "rows_bucket": {}, "ncols": {}, "heuristic": {}, "mode": {}, "entry": {}, "max_cardinality_bucket": {},
             "column_kinds": {}, "impl_errors": 0, "rows_compared": 0}
 
     def bump(d, k):
@@ -969,6 +1056,10 @@ def _check(run, replay):
         bump(hist["heuristic"], c["heuristic"])
         bump(hist["mode"], "target_only" if c["target_only"] else "pairwise")
         bump(hist["entry"], c.get("entry", "mrg") + ("/io%d" % c["interaction_order"] if c.get("interaction_order", 1) != 1 else ""))
+        if c.get("numeric"):
+            bump(hist["family"], "declared-numeric columns (%d)" % len(c["numeric"]))
+        if c.get("reference_features"):
+            bump(hist["family"], "reference_model_JSON/" + c.get("entry", "mrg"))
         pl = c.get("pool") or {"kind": "fake", "ncpus": 1}
         bump(hist["pool"], "%s/%s" % (pl.get("kind", "fake"), pl.get("nodes", pl.get("ncpus", 1))))
         bump(hist["max_cardinality_bucket"], bucket(max(len(set(col)) for col in c["cols"])))
@@ -978,7 +1069,7 @@ def _check(run, replay):
         if v["error"]:
             hist["impl_errors"] += 1
         canon = [c["names"], c["cols"], c["label"], c["heuristic"], c["target_only"], c.get("entry", "mrg"),
-                 c.get("interaction_order", 1), c.get("pool")]
+                 c.get("interaction_order", 1), c.get("pool"), c.get("numeric"), c.get("reference_features")]
         run.count_case(canon, v["nontrivial"])
         if c.get("history_only"):
             continue
